@@ -25,8 +25,9 @@ Wraps3(x) ==
               Node("asg", "=", <<x, B>>), Node("casg", "+=", <<x, B>>)}
         ELSE {})
   \cup {Node("asg", "=", <<g, x>>) : g \in Tgt} \cup {Node("casg", "-=", <<B, x>>)}
-  \cup (IF CallLevel(x) THEN {Node("mem", "", <<x, P>>)} ELSE {})
-  \cup (IF CallLevel(x) THEN {Node("call", "", <<x>>), Node("call", "", <<x, B>>), Node("idx", "", <<x, B>>)} ELSE {})
+  \* callee / object of ANY precedence: (a + b)(c), (-a).p, (a = b)[c] are the JavaScript texts of these trees
+  \cup {Node("mem", "", <<x, P>>)}
+  \cup {Node("call", "", <<x>>), Node("call", "", <<x, B>>), Node("idx", "", <<x, B>>)}
   \cup {Node("call", "", <<B, x>>), Node("call", "", <<B, B, x>>), Node("idx", "", <<B, x>>),
         Node("arr", "", <<x>>), Node("arr", "", <<B, x>>), Node("obj", "", <<Id("k"), x>>),
         Fn(Nil, <<>>, <<Ret(x)>>), Grp(x)}
